@@ -1462,7 +1462,7 @@ pub mod verif {
 
     /// Must be called inside a tokio runtime.
     pub fn start_daser<S: Store + 'static>(
-        p2p: Arc<P2p>,
+        p2p: crate::p2p::verif::DaserP2p,
         store: Arc<S>,
         sampling_window: Duration,
         concurrency_limit: usize,
@@ -1471,7 +1471,7 @@ pub mod verif {
         let events = crate::events::EventChannel::new();
         let sub = events.subscribe();
         let daser = Daser::start(DaserArgs {
-            p2p,
+            p2p: p2p.0,
             store,
             event_pub: events.publisher(),
             sampling_window,
